@@ -203,7 +203,7 @@ def call_mk(it, fn, a):
     sec = cfg.sections.get("mybank", {})
     own = sec.get(o, (False, None))
     return {"own": SBool(zbool(own[0])) if not isinstance(own[0], bool) else own[0], "own_text": own[1],
-            "default_uid": cfg.sections["DEFAULT"].get("clientuid"), "log": list(cfg.log)}
+            "default_uid": (lambda d: (True if d[0] is True else (d[0] if isinstance(d[0], bool) else SBool(d[0])), d[1]))(cfg.sections["DEFAULT"].get("clientuid", (False, None))), "log": list(cfg.log)}
 
 
 def next_effective(it, w, res):
@@ -244,6 +244,8 @@ for o in G.CONFIGURABLE:
         continue
     CONTRACTS.append(Contract("ofxtools.scripts.ofxget:mk_server_cfg", args=[WriteArg(o)], call=call_mk,
                               ensures=[("C18-value-given-is-in-effect-next-run", "not w['given'] or w['null'] or spec.ofxget.persisted_after_write(w, result)"),
+                                       ("C18-global-default-clientuid-kept", "not w['uid_global'] or (result['default_uid'][0] and result['default_uid'][1] == w['uid_text'])"),
+                                       ("C18-global-default-clientuid-created-once", "w['uid_global'] or result['default_uid'][0]"),
                                        ("nothing-touched-when-not-given", "(w['given'] and not w['null']) or len([e for e in result['log'] if e[0] in ('set', 'remove') and e[2] == w['opt']]) == 0")],
                               raises=[(ValueError, "w['opt'] == 'url'", "may")],      # a URL equal to the server nickname: no nickname, nothing to write
                               notes=f"option {o}: value, presence in the user's server section / [DEFAULT] section / FI database all symbolic",
